@@ -371,7 +371,7 @@ def registry_evaluation():
     n_iban = 0
     per_cc = {}
     for (cc, code), group in want.items():
-        if cc not in table or per_cc.get(cc, 0) >= 60:
+        if cc not in table:
             continue
         per_cc[cc] = per_cc.get(cc, 0) + 1
         s = table[cc]
